@@ -208,6 +208,9 @@ impl Analyzable for Statement
 			} =>
 			{
 				analyzer.is_in_block = false;
+				// Being an `else if` is a property of this statement,
+				// not of its branches.
+				analyzer.is_naked_else_branch = false;
 
 				analyzer.is_naked_then_branch = true;
 				let then_branch = Box::new(then_branch.analyze(analyzer));
